@@ -433,6 +433,24 @@ pub fn run(tier: Tier) -> i32 {
         check_source(&j.src, &j.site, &j.input, &j.fns, j.must_accept, &cnt, &coll);
     });
     let (diff_pairs, diff_evals) = suffix_differential(&jobs, &budget, &coll);
+    // programs that cannot be compiled (types of infinite size) must be refused with an error: run in
+    // isolated workers, because the failure mode is a stack overflow or an endless recursion
+    {
+        let progs: Vec<Vec<u8>> = crate::props::c07::RECURSIVE_TYPE_PROGRAMS.iter().map(|(_, s)| s.as_bytes().to_vec()).collect();
+        crate::worker::run_cases("frontend", &progs, std::time::Duration::from_millis(5000), 4 * 1024 * 1024, &budget, |i, o| {
+            let (name, src) = crate::props::c07::RECURSIVE_TYPE_PROGRAMS[i];
+            let case = json!({"kind": "program", "source": src});
+            match o {
+                crate::worker::WOutcome::Reply(r) => {
+                    if !r.starts_with("type-error|") || r.len() > "type-error|".len() {
+                        coll.push(Violation::new("C05", format!("I/infinite-type/{name}"), "not-refused-with-a-type-error", "", case, r));
+                    }
+                }
+                crate::worker::WOutcome::Hang => coll.push(Violation::new("C05", format!("I/infinite-type/{name}"), "accepted-and-compiler-hangs", "", case, "no answer within 5 s")),
+                crate::worker::WOutcome::Died(st) => coll.push(Violation::new("C05", format!("I/infinite-type/{name}"), "accepted-and-compiler-crashes", "", case, format!("process died: {st}"))),
+            }
+        });
+    }
     // (a) all fully annotated programs of the other families
     let (fjobs, plan) = c01::family_jobs(tier, &["E-small", "S", "P", "D"]);
     let fr = c01::run_jobs(fjobs, c01::attribution_for, &budget, plan);
